@@ -24,6 +24,8 @@ func init() {
 
 func runC04(r *Run) {
 	contextProvenanceRules(r) // IsReceived / sequencer are read from the block's previous
+	acceptancePathRules(r)    // no block type reaches the VM around the verifier (the sequencer check lives there)
+	poolInvalidationRules(r)  // a pooled receive never outlives the momentum that confirmed its send
 	r.Alias("$b", "recv.block")
 	r.Alias("$send", "recv.momentumStore.GetAccountBlockByHash($b.FromBlockHash)")
 	r.Alias("$front", "recv.accountStore.SequencerFront(recv.momentumStore.GetAccountMailbox($b.Address))")
